@@ -81,6 +81,7 @@ fn main() {
             "C05" => checks::c05::replay(&case),
             "C07" => checks::c07::replay(&case),
             "C08" => checks::c08::replay(&case),
+            "C09" => checks::c09::replay(&case),
             "C10" => checks::c10::replay(&case),
             "C11" => checks::c11::replay(&case),
             "C12" => checks::c12::replay(&case),
@@ -111,6 +112,7 @@ fn main() {
         "C05" => checks::c05::run(&mut ctx),
         "C07" => checks::c07::run(&mut ctx),
         "C08" => checks::c08::run(&mut ctx),
+        "C09" => checks::c09::run(&mut ctx),
         "C10" => checks::c10::run(&mut ctx),
         "C11" => checks::c11::run(&mut ctx),
         "C12" => checks::c12::run(&mut ctx),
